@@ -87,6 +87,12 @@ def shards(tier, seed):
             nparts = {5: 2, 6: 6, 7: 16, 8: 48}[n]
             for part in range(nparts):
                 out.append(dict(func=func, dtype=dtype, engine="numpy", n=n, part=part, nparts=nparts, deep=True, tier=tier))
+    # dask labels cut into chunks differently from the array (same number of blocks with other boundaries, and other numbers)
+    for func in ("sum", "nanmax", "nanargmax"):
+        for n in (3, 4):
+            nparts = 1 if n == 3 else 6
+            for part in range(nparts):
+                out.append(dict(func=func, dtype="float64", engine="numpy", n=n, labelchunks=True, part=part, nparts=nparts, tier=tier))
     # n-D labels leg: 2-D labels (all axes reduced), integer labels with a real label -1, fill_value without expected_groups
     for func in ND_FUNCS:
         for labkind in ("int-1", "float-nan"):
@@ -100,6 +106,27 @@ def shards(tier, seed):
 
 
 ND_FUNCS = ["sum", "nanmax", "nanmin", "count", "nanmean"]
+
+
+def run_labelchunks(res, shard):
+    """The label array is a dask array whose chunk boundaries differ from the value array's."""
+    func, dtype, n = shard["func"], shard["dtype"], shard["n"]
+    base = np.array([1.0, -2.0, 3.5, float("nan"), -2.0, 7.0])[:n]
+    V = np.array([np.roll(base, r) for r in range(3)] + [2.0 ** np.arange(n)], dtype=dtype)
+    comps = [c for c in space.compositions(n) if len(c) >= 2]
+    pairs = [(a, b) for a in comps for b in comps if a != b and (n <= 3 or shard.get("tier") != "quick" or len(a) == len(b))]
+    work = [(lt, a, b) for lt in itertools.product(LABELS, repeat=n) if any(x == x for x in lt) for a, b in pairs]
+    work = [w for i, w in enumerate(work) if i % shard["nparts"] == shard["part"]]
+    for lab_tuple, chunks, lch in work:
+        for method in (None, "map-reduce"):
+            for exkind in ("absent", "superset"):
+                check_point(res, func, dtype, "numpy", lab_tuple, chunks, 1, True, method, None, exkind, V, label_chunks=lch)
+        res.nontrivial += 4 * V.shape[0]
+        res.classes["label-chunks-differ"] += 1
+    if work:
+        res.sample(dict(leg="labelchunks", func=func, n=n, labels=list(work[len(work) // 2][0]), array_chunks=list(work[len(work) // 2][1]),
+                        label_chunks=list(work[len(work) // 2][2])))
+    return res
 
 
 def run_nd(res, shard):
@@ -145,10 +172,10 @@ def run_nd(res, shard):
                                     method=method, fill=fill)
                         tags = dict(leg2="nd", func=func, method=str(method), labels_dask=labels_dask, labkind=labkind, fill=str(fill), lab_ndim=len(shp))
                         sz = size * 10 + sum(len(g) for g in grid)
-                        if out.kind == "refused":
+                        if out.kind == "refused" and out.origin == "flox":
                             res.outcomes[f"refused:{out.exc}"] += 1
                             continue
-                        if out.kind == "error":
+                        if out.kind in ("error", "refused"):
                             res.outcomes[f"error:{out.exc}"] += 1
                             res.violate("chunked-error", case, out.brief(), "a computed result or a clean refusal",
                                         tags=dict(tags, kind="error", exc=out.exc, where=out.where), size=sz)
@@ -270,7 +297,8 @@ def eager_reference(func, dtype, lab_tuple, V, exkind):
     return out
 
 
-def check_point(res, func, dtype, engine, lab_tuple, chunks, bblocks, labels_dask, method, reindex, exkind, V):
+def check_point(res, func, dtype, engine, lab_tuple, chunks, bblocks, labels_dask, method, reindex, exkind, V, label_chunks=None, split_every=None):
+    import dask
     import dask.array as da
 
     n = len(lab_tuple)
@@ -285,26 +313,32 @@ def check_point(res, func, dtype, engine, lab_tuple, chunks, bblocks, labels_das
     B = V.shape[0]
     bch = (B,) if bblocks == 1 else (B // 2, B - B // 2)
     arr = da.from_array(V, chunks=(bch, chunks))
-    by = da.from_array(labels, chunks=(chunks,)) if labels_dask else labels
-    out = e1.call_reduce(arr, by, **kw)
+    by = da.from_array(labels, chunks=(label_chunks or chunks,)) if labels_dask else labels
+    with dask.config.set(**({"split_every": split_every} if split_every else {})):
+        out = e1.call_reduce(arr, by, **kw)
     res.evaluations += B
     res.states += B
     res.transitions += 1
     case = dict(func=func, dtype=dtype, engine=engine, labels=list(lab_tuple), chunks=list(chunks), batch_blocks=bblocks,
                 labels_dask=labels_dask, method=method, reindex=reindex, expected=exkind)
+    if label_chunks:
+        case["label_chunks"] = list(label_chunks)
+    if split_every:
+        case["split_every"] = split_every
     tags = dict(func=func, dtype=dtype, engine=engine, method=str(method), reindex=str(reindex), labels_dask=labels_dask,
                 expected=exkind, nblocks=len(chunks))
     if method == "blockwise" and not blockwise_ok(lab_tuple, chunks):
         # outside the documented precondition of blockwise: whatever happens is not C02's business
         res.outcomes["blockwise-precondition-unmet(not asserted)"] += 1
         return
-    if out.kind == "refused":
+    if out.kind == "refused" and out.origin == "flox":
         res.outcomes[f"refused:{out.exc}"] += 1
         return
-    if out.kind == "error":
+    if out.kind in ("error", "refused"):
+        # an internal error - or a ValueError raised inside numpy / dask / pandas, which is not a refusal by flox
         res.outcomes[f"error:{out.exc}"] += 1
         res.violate("chunked-error", case, out.brief(), "a computed result or a clean refusal",
-                    tags=dict(tags, kind="error", exc=out.exc, where=out.where), size=n * 10 + len(chunks))
+                    tags=dict(tags, kind="error", exc=out.exc, where=out.where, raised_in=out.origin), size=n * 10 + len(chunks))
         return
     eager = eager_reference(func, dtype, lab_tuple, V, exkind)
     if eager.kind != "ok":
@@ -358,6 +392,9 @@ def run_deep(res, shard):
             continue  # covered by the complete legs
         for method in ("cohorts", None, "map-reduce"):
             check_point(res, func, dtype, "numpy", lab_tuple, chunks, 1, False, method, None, "absent", V)
+        if len(chunks) >= 5 and func == "sum":
+            # a deeper reduction tree inside each cohort (fan-in 2)
+            check_point(res, func, dtype, "numpy", lab_tuple, chunks, 1, False, "cohorts", None, "absent", V, split_every=2)
         res.nontrivial += 3 * V.shape[0]
         res.classes[">=4-blocks"] += 1
     res.sample(dict(leg="deep", func=func, n=n, labels=list(pairs[len(pairs) // 2][0]), chunks=list(pairs[len(pairs) // 2][1]), rows=V.shape[0]))
@@ -371,6 +408,8 @@ def run_shard(shard):
         return run_deep(res, shard)
     if shard.get("nd"):
         return run_nd(res, shard)
+    if shard.get("labelchunks"):
+        return run_labelchunks(res, shard)
     func, dtype, engine, n = shard["func"], shard["dtype"], shard["engine"], shard["n"]
     V = space.value_matrix(space.alphabet_for(dtype), n, dtype)
     pairs = [(lt, ch) for lt in itertools.product(LABELS, repeat=n) for ch in space.compositions(n)]
@@ -411,6 +450,9 @@ def replay(payload):
     V = space.value_matrix(space.alphabet_for(c["dtype"]), n, c["dtype"])
     if n >= 5 and "values" in c:
         V = np.array([unjson_float(c["values"])], dtype=c["dtype"])
+    if "label_chunks" in c and "values" in c:
+        V = np.array([unjson_float(c["values"])], dtype=c["dtype"])
     check_point(res, c["func"], c["dtype"], c["engine"], lab, tuple(c["chunks"]), c["batch_blocks"], c["labels_dask"],
-                c["method"], c["reindex"], c["expected"], V)
+                c["method"], c["reindex"], c["expected"], V, label_chunks=tuple(c["label_chunks"]) if c.get("label_chunks") else None,
+                split_every=c.get("split_every"))
     return res
